@@ -212,14 +212,16 @@ def judge(s, r):
                   dict(base, outcome="worker_bound")))
     if fam.endswith("reader"):
         exp = expected_reader(s)
-        if not r["out_is_prefix"]:
+        if not r["out_is_prefix"] or (r.get("st_ok") and not r.get("mt_is_prefix_of_st", True)):
             v.append(("C08", f"{fam}: bytes returned differ from the single-threaded content ({cls})",
                       dict(base, outcome="wrong_bytes")))
+        if exp == "ok" and not r.get("st_ok", True):
+            raise ToolError(f"single-threaded reader rejects the stream generated for {s['id']} (generator or ST reader problem, not an MT verdict)")
         if r["outcome"] == "eof":
             if exp == "err":
                 v.append(("C09", f"{fam}: end of stream reported although the input is faulty ({cls})",
                           dict(base, outcome="false_success")))
-            elif not r["out_complete"]:
+            elif not r["out_complete"] or not r.get("mt_equals_st", True):
                 v.append(("C08", f"{fam}: end of stream with {r['out_len']} of {r['expected_len']} bytes ({cls})",
                           dict(base, outcome="missing_bytes")))
             elif r["unit_count"] != r["expected_units"] and r["expected_len"] > 0:
